@@ -19,7 +19,6 @@ import (
 type (
 	Once      = sync.Once
 	WaitGroup = sync.WaitGroup
-	Pool      = sync.Pool
 	Map       = sync.Map
 	Locker    = sync.Locker
 	Cond      = sync.Cond
@@ -173,3 +172,59 @@ type rlocker struct{ m *RWMutex }
 
 func (r rlocker) Lock()   { r.m.RLock() }
 func (r rlocker) Unlock() { r.m.RUnlock() }
+
+// Pool replaces sync.Pool with a deterministic LIFO free list whose Get and Put
+// are scheduling points (Put: right after the object became available), so the
+// explorer can hand a just-released object to another thread while the releasing
+// thread still uses it. Each pooled object carries the put->get happens-before
+// edge sync.Pool has, and no more.
+type Pool struct {
+	New   func() any
+	items []pooled
+	owner *vsched.Exec
+}
+
+type pooled struct {
+	v  any
+	hb *int
+}
+
+//go:norace
+func (p *Pool) fresh() {
+	if x := vsched.Cur(); p.owner != x {
+		p.owner = x
+		p.items = nil
+	}
+}
+
+//go:norace
+func (p *Pool) Get() any {
+	if vsched.Active() {
+		vsched.Point("pool-get", always)
+	}
+	p.fresh()
+	if n := len(p.items); n > 0 {
+		it := p.items[n-1]
+		p.items = p.items[:n-1]
+		vsched.Acquire(unsafe.Pointer(it.hb))
+		return it.v
+	}
+	if p.New != nil {
+		return p.New()
+	}
+	return nil
+}
+
+//go:norace
+func (p *Pool) Put(v any) {
+	if v == nil {
+		return
+	}
+	p.fresh()
+	hb := new(int)
+	vsched.Release(unsafe.Pointer(hb))
+	p.items = append(p.items, pooled{v, hb})
+	if vsched.Active() {
+		vsched.Point("pool-put", always)
+	}
+}
